@@ -1,5 +1,5 @@
 /* C27 - abidiff's command line parser (tools/abidiff.cc parse_command_line, real) on
-   "abidiff [--keep|--keep-fn|--keep-var|--drop|--drop-fn|--drop-var] PATTERN FILE1 FILE2" with the option before,
+   "abidiff [--keep|--keep-fn|--keep-var|--drop|--drop-fn|--drop-var|--kmi-whitelist|-w|--suppressions|--suppr] OPERAND FILE1 FILE2" with the option before,
    between or after the two files: the pattern reaches exactly the pattern lists that option names, it is consumed
    (not taken for an input file) and both files are still recognized. */
 #include "unit.h"
@@ -8,9 +8,9 @@ typedef struct class_std____cxx11__basic_string vstr_t;
 #ifndef OPTSEL
 #define OPTSEL 0
 #endif
-static const char *const optname[6] = { "--drop", "--drop-fn", "--drop-var", "--keep", "--keep-fn", "--keep-var" };
-/* which of the four lists (drop-fn, drop-var, keep-fn, keep-var) each option fills */
-static const u8 fills[6][4] = { {1,1,0,0}, {1,0,0,0}, {0,1,0,0}, {0,0,1,1}, {0,0,1,0}, {0,0,0,1} };
+static const char *const optname[10] = { "--drop", "--drop-fn", "--drop-var", "--keep", "--keep-fn", "--keep-var", "--kmi-whitelist", "-w", "--suppressions", "--suppr" };
+/* which of the six lists (drop-fn, drop-var, keep-fn, keep-var, KMI whitelist paths, suppression paths) each option fills */
+static const u8 fills[10][6] = { {1,1,0,0,0,0}, {1,0,0,0,0,0}, {0,1,0,0,0,0}, {0,0,1,1,0,0}, {0,0,1,0,0,0}, {0,0,0,1,0,0}, {0,0,0,0,1,0}, {0,0,0,0,1,0}, {0,0,0,0,0,1}, {0,0,0,0,0,1} };
 static u64 opts_mem[256];
 void h_cmdline(void)
 {
@@ -31,7 +31,7 @@ void h_cmdline(void)
   u8 ok = _Z18parse_command_lineiPPcR7options(5, argv, o);
   PROP(ok && !w_opts_flag(o, 0) && !w_opts_flag(o, 1), "C27-option-accepted: a keep/drop option with its pattern and two files is a valid command line");
   PROP(vs_eq_lit(w_opts_file(o, 0), "a") && vs_eq_lit(w_opts_file(o, 1), "b"), "C27-pattern-consumed: the pattern operand is consumed by the option; the two input files are the two files given");
-  for (int l = 0; l < 4; l++) {
+  for (int l = 0; l < 6; l++) {
     void *v = w_opts_patterns(o, l);
     u64 n = w_vec_size(v);
     PROP(n == fills[OPTSEL][l], "C27-pattern-lists: the pattern is recorded in exactly the lists the option names");
